@@ -265,6 +265,13 @@ static qarray *qarray_create_internal(const size_t         count,
                     }
                 }
             }
+            /* the shepherd id is stored 4-byte aligned behind the last element:
+             * with small units one unit of slack is not always enough room */
+            while ((ret->segment_size > 0) &&
+                   (((((ret->segment_size * ret->unit_size) + 3) & ~(size_t)3) +
+                     sizeof(qthread_shepherd_id_t)) > ret->segment_bytes)) {
+                ret->segment_size--;
+            }
             assert(ret->segment_size > 0);
             assert(ret->segment_bytes > 0);
             break;
